@@ -11,6 +11,7 @@
 (*  TakeMap       ToCUs     RetrieveOutgoing MapWGReq         L_TakeMap    *)
 (*  Complete      ToCUs     Recvd            WGCompletionMsg  L_Complete   *)
 (*  Consume       ToCUs     RetrieveIncoming WGCompletionMsg  L_Consume    *)
+(*  Strip         a delivered WGCompletionMsg lost ids     L_Strip      *)
 (*  Rsp           ToDriver  Send             LaunchKernelRsp  L_Rsp        *)
 (*  TakeRsp       ToDriver  RetrieveOutgoing LaunchKernelRsp  L_TakeRsp    *)
 (*  Idle          the engine has no event left: the CP went to sleep       *)
@@ -88,6 +89,9 @@ TMap     == /\ Is("MapWG") /\ L_Map(Ev.m, Ev.k, Ev.w, Ev.c, LocsOf(Ev), Ev.pid, 
 TTakeMap == Is("TakeMap") /\ L_TakeMap(Ev.m) /\ UNCHANGED <<wc, held, ff>>
 TComplete == Is("Complete") /\ L_Complete(Ev.mid, Ev.c, Range(Ev.ids)) /\ UNCHANGED <<wc, held, ff>>
 TConsume == Is("Consume") /\ L_Consume(Ev.mid) /\ held' = HeldDrop(Head(cuIn).ids) /\ UNCHANGED <<wc, ff>>
+\* a dispatcher took its share out of the head completion message and left the rest in the port
+TStrip   == /\ Is("Strip") /\ cuIn # <<>> /\ Head(cuIn).mid = Ev.mid /\ L_Strip(Range(Ev.ids))
+            /\ held' = HeldDrop(Range(Ev.ids)) /\ UNCHANGED <<wc, ff>>
 TRsp     == Is("Rsp") /\ L_Rsp(Ev.k) /\ UNCHANGED <<wc, held, ff>>
 TTakeRsp == Is("TakeRsp") /\ L_TakeRsp(Ev.k) /\ UNCHANGED <<wc, held, ff>>
 
@@ -103,7 +107,7 @@ TIdle == /\ Is("Idle")
 \* must have been answered.
 TQuiesce == Is("Quiesce") /\ PortsQuiet /\ AllAnswered /\ UNCHANGED <<lvars, wc, held, ff>>
 
-TNext == TReset \/ TLaunch \/ TStart \/ TMap \/ TTakeMap \/ TComplete \/ TConsume \/ TRsp \/ TTakeRsp
+TNext == TReset \/ TLaunch \/ TStart \/ TMap \/ TTakeMap \/ TComplete \/ TConsume \/ TStrip \/ TRsp \/ TTakeRsp
          \/ TIdle \/ TQuiesce
 
 TSpec == TInit /\ [][TNext]_tvars
